@@ -88,6 +88,11 @@ META = {'C01': {'text': 'Model-based stateful property testing: random histories
          'design_ref': 'DESIGN.md §6 C16',
          'note': 'Trusts the reference model; arbitrary filter chains are exercised by C04, here five filter shapes are combined with Ascend.',
          'technique': 'model-based stateful property testing (rapid) with reference-model oracle'},
+ 'C17': {'text': 'Generated TTL mixes against the real vacuum goroutine under concurrent load, with exact safety checks outside a guard band and a '
+                 'generously bounded liveness check; also through snapshot/restore and replication. Exploration with wall-clock margins.',
+         'design_ref': 'DESIGN.md §6 C17',
+         'note': "Trusts the wall clock within the stated margins; deadlines are taken from SetTTL's return value and Extend's delta.",
+         'technique': 'property-based testing (rapid-generated cases) with time-margin oracle against the real background cleanup'},
  'C19': {'text': 'Model-based stateful property testing: trigger callbacks are recorded and compared, per transaction, with the event list the '
                  'reference model derives (post-merge values, issue order per row, one call per delete, none for rollbacks or after drop). '
                  'Exploration.',
